@@ -67,11 +67,15 @@ CLAIMS["C19"] = ("redis Config::builder (real body): both url and connection => 
             "the six From conversions between deadpool's and the redis crate's ConnectionAddr / RedisConnectionInfo / ConnectionInfo (type definitions extracted from the registry source) are checked field-wise against their expected mapping, with the round-trip lemmas proved.",
             "DESIGN.md 5/C19", "NOT covered: the cluster and sentinel flavours (iterator adapters / vec! in their builder), and the serde round trip of PoolConfig/Timeouts/QueueMode (code generated by derive macros: no function of /repo to put under contract). URL parsing is inside redis::Client::open (arbitrary result). ")
 
+CLAIMS["C15"] = ("the three recycle functions of the SyncWrapper-based managers (r2d2, sqlite, diesel; real bodies, the closure given to interact() run inline) and diesel's perform_recycle_check: a poisoned wrapper is rejected "
+            "before any interaction; r2d2: has_broken => rejected, is_valid error => Backend error, Ok only after both checks passed; sqlite: Ok only if the fresh counter value is echoed; diesel: a broken transaction manager is rejected "
+            "before anything else for every recycling method, exactly the configured check is issued, ping failure => error; a failed interaction is rejected. With C04 (unit mg) a recycle error means: discarded, detached once, replaced.",
+            "DESIGN.md 5/C15", "PARTIAL by nature: that a panicking closure poisons the mutex is std's behaviour (trusted, the ghost flag `poisoned`); thread placement and cancellation of a running closure are C14 (not applicable); the backends' truthfulness is external. SyncWrapper::interact itself is modelled, not extracted. ")
+
 NOT_APPLICABLE = {
     "C14": "thread placement, ordering of a destructor after a still-running cancelled closure, and mutex poisoning are not expressible as contracts: Verus has no notion of OS-thread identity, unwinding or poisoning, Kani has no threads; a syntactic scope fact would misrepresent the property (DESIGN.md 5/C14)",
 }
 PENDING = {
-    "C15": "check not built yet (sync/sqlite/r2d2/diesel manager recycle contracts are next in the build order, DESIGN.md section 11)",
     "C16": "check not built yet (postgres manager / statement cache unit is next in the build order)",
 }
 
